@@ -2,10 +2,11 @@
 # seedbatch.sh : (maintainer) run tools/seedtest.py for every /tmp/seed/Cxx_m?.diff not yet tested, 4 at a time
 cd /verif
 declare -A REL=( [C01]="C03 C19" [C02]="C14 C07" [C03]="C10" [C04]="C03" [C05]="C10" [C07]="C02" [C09]="C02 C16" [C10]="C03" [C11]="C20 C01" [C12]="C03" [C13]="C02" [C14]="C02" [C16]="C01 C09" [C17]="C18" [C18]="C17" [C19]="C01" [C20]="C11" )
-for d in /tmp/seed/C??_m?.diff; do
-  b=$(basename $d .diff); pid=${b%%_*}
-  [ -f seeded/$b/meta.json ] && grep -q '"checks"' seeded/$b/meta.json && continue
-  [ -f /tmp/seed/${b}_demo.py ] || continue
-  echo "python3 tools/seedtest.py $b $pid $d /tmp/seed/${b}_demo.py ${REL[$pid]} > /dev/shm/st_$b.log 2>&1"
+SD=${1:-/tmp/seed}; TAG=${2:-}
+for d in $SD/C??_m?.diff; do
+  b=$(basename $d .diff); pid=${b%%_*}; sid=${pid}_${TAG}${b##*_}
+  [ -f seeded/$sid/meta.json ] && grep -q '"checks"' seeded/$sid/meta.json && continue
+  [ -f $SD/${b}_demo.py ] || continue
+  echo "python3 tools/seedtest.py $sid $pid $d $SD/${b}_demo.py ${REL[$pid]} > /dev/shm/st_$sid.log 2>&1"
 done | xargs -P 4 -I{} bash -c "{}"
 for f in /dev/shm/st_*.log; do tail -n 1 $f; done
